@@ -203,6 +203,14 @@ Section Block.
                            | S O => if main_loop then None else Some ([NBreak], s)
                            | _ => Some ([NBreak], s)
                            end)
+        | PContinue =>
+            (* `continue`: outside any loop -> ValueError; at the level of the main loop (its body is
+               loop()) -> ReturnStmt(expr=None), i.e. `return;`; inside a for/while loop -> ContinueStmt *)
+            continue_with (match loop_depth with
+                           | O => None
+                           | S O => if main_loop then Some ([NReturn], s) else Some ([NContinue], s)
+                           | _ => Some ([NContinue], s)
+                           end)
         | PWrite e => continue_with (Some ([NWrite (a_id e)], s))
         | PSleep e => continue_with (Some ([NSleep (a_id e)], s))
         | PExprS e => continue_with (if closed_const e then Some ([], s) else Some ([NExprS (a_id e)], s))
